@@ -95,7 +95,7 @@ def rand_conts(g, n=None, small=False):
 
 
 # ------------------------------------------------------------------ suites
-ENTRIES = ["readfrom", "frombuffer", "fromunsafe", "unmarshal", "base64"]
+ENTRIES = ["readfrom", "frombuffer", "fromunsafe", "unmarshal", "base64", "readfromck"]
 
 
 @suite("ser")
@@ -114,9 +114,9 @@ def _ser(g, scale):
         for e in ENTRIES:
             y = g.fresh()
             opts = []
-            if e in ("readfrom",):
+            if e in ("readfrom", "readfromck"):
                 opts.append("chunk=%d" % r.choice([1, 2, 3, 7, 64, 4096, 0]))
-            if e in ("readfrom", "frombuffer", "fromunsafe") and r.random() < 0.7:
+            if e in ("readfrom", "readfromck", "frombuffer", "fromunsafe") and r.random() < 0.7:
                 opts.append("extra=%d" % r.choice([1, 7, 100]))
             g.emit("rd %s %s %s %s" % (y, e, x, " ".join(opts)))
             # the decoded bitmap supports further operations
@@ -176,7 +176,7 @@ def _spec(g, scale):
         data = enc_stream(conts, run_cookie=rc, split_runs=r if r.random() < 0.3 else None)
         g.count("spec:%s" % ("runcookie" if (rc or any(k == "R" for _, k, _ in conts)) and conts else "norun"))
         g.count("spec:n%s" % ("<4" if len(conts) < 4 else ">=4"))
-        e = r.choice(["readfrom", "readfrom", "frombuffer", "fromunsafe", "unmarshal", "base64"])
+        e = r.choice(["readfrom", "readfrom", "frombuffer", "fromunsafe", "unmarshal", "base64", "readfromck", "readfromck"])
         opts = []
         if prev and r.random() < 0.35:
             y = r.choice(prev)          # a receiver that already holds another decoded stream
@@ -184,15 +184,25 @@ def _spec(g, scale):
             g.count("spec:reused-receiver")
         else:
             y = g.fresh()
-        if e == "readfrom" and r.random() < 0.7:
+        if e in ("readfrom", "readfromck") and r.random() < 0.7:
             opts.append("chunk=%d" % r.choice([1, 1, 2, 3, 5, 7, 16, 64]))   # the stream arrives in pieces
             g.count("spec:chunked")
         g.emit(("spec %s %s %s %s %s" % (y, e, data.hex(), fnv_digest(conts), " ".join(opts))).strip())
         g.emit("card %s" % y)
         g.emit("toarr %s" % y)
         prev.append(y)
+    # a run chunk with very many runs (the count is a 16-bit field; 32768 runs is the most a chunk can hold)
+    for nr in ([16383, 16384, 20000, 32768] if scale >= 2 else [r.choice([16384, 20000, 32768])]):
+        ivs = [(2 * i, 2 * i) for i in range(nr)]
+        conts = [(r.choice([0, 7, 65535]), "R", ivs)]
+        if r.random() < 0.5:
+            conts = sorted(conts + [((conts[0][0] + 1) % 65536, "A", [(5, 5), (9, 9)])])
+        y = g.fresh()
+        g.emit("spec %s %s %s %s" % (y, r.choice(ENTRIES), enc_stream(conts).hex(), fnv_digest(conts)))
+        g.emit("card %s" % y)
+        g.count("spec:manyruns")
     # the empty stream (both cookies) into fresh and used receivers, through every entry point
-    for e in ["readfrom", "frombuffer", "fromunsafe", "unmarshal", "base64"]:
+    for e in ENTRIES:
         for rc in (None, None):      # (the run-capable cookie cannot express zero containers)
             if not prev:
                 break
@@ -278,7 +288,7 @@ def _fuzzdec(g, scale):
             if len(m) > 40000:
                 continue
             y = g.fresh()
-            e = r.choice(["readfrom", "frombuffer", "fromunsafe", "unmarshal", "must", "base64"])
+            e = r.choice(["readfrom", "frombuffer", "fromunsafe", "unmarshal", "must", "base64", "readfromck"])
             g.emit("dec %s %s %s" % (y, e, m.hex()))
             # battery on accepted+validated inputs (skipped on both sides otherwise)
             g.emit("card %s" % y)
